@@ -416,6 +416,15 @@ class PoolWorld(object):
         """Let everything that is pending finish: queued tasks run (connects accepted), every
         outstanding request is answered and every remaining client timer fires, in the given order
         of preference, until nothing is left."""
+        try:
+            return self._drain(order)
+        except WouldBlock as e:
+            # as in apply_event: on real threads this handler hangs for ever
+            self.stuck = '%s while everything outstanding is answered' % (e,)
+            self.problems.append(('deadlock', type(self.pool).__name__, 'a handler blocks for ever: %s' % self.stuck))
+            return True
+
+    def _drain(self, order):
         for _ in range(400):
             self.w.clock.new_event()
             if self.w.tasks:
@@ -492,8 +501,11 @@ class PoolWorld(object):
         """C12 post-condition: let everything finish (in place), then every connection the pool ever
         opened must be closed and nothing may be queued that would open another"""
         out = []
+        was_stuck = self.stuck
         quiet = self.drain(order)
         cls = type(self.pool).__name__
+        if self.stuck and not was_stuck:
+            out.append(('deadlock', cls, 'a handler blocks for ever: %s' % self.stuck))
         if not quiet or self.w.tasks:
             out.append(('never-quiescent-after-shutdown', cls,
                         'tasks keep being queued after shutdown: %r' % ([t[4] for t in self.w.tasks],)))
